@@ -239,6 +239,30 @@ func genHotOp(t *rapid.T, client, seq int) kit.Cmd {
 	}
 }
 
+// genWalkOp: one long list; the first two clients overwrite single positions (head, then tail, then the
+// middle: two writes of one client are ordered in real time), the others read the whole list. A reader
+// that walks the list while positions are overwritten must see a state that existed: never the later of
+// one client's two writes without the earlier.
+func genWalkOp(t *rapid.T, client, seq int) kit.Cmd {
+	if client < 2 {
+		pos := []string{"0", "-1", "400", "1", "-2"}[seq%5]
+		if rapid.IntRange(0, 9).Draw(t, "wpos") == 0 {
+			pos = fmt.Sprintf("%d", rapid.IntRange(-800, 799).Draw(t, "pos"))
+		}
+		return kit.MkCmd("LSET", "l0", pos, fmt.Sprintf("c%d-%d", client, seq))
+	}
+	switch gen.Weighted(t, "wop", []int{12, 2, 2, 1}) {
+	case 0:
+		return kit.MkCmd("LRANGE", "l0", "0", "-1")
+	case 1:
+		return kit.MkCmd("LINDEX", "l0", gen.Pick(t, "wi", "0", "-1", "400"))
+	case 2:
+		return kit.MkCmd("LRANGE", "l0", "-3", "-1")
+	default:
+		return kit.MkCmd("LLEN", "l0")
+	}
+}
+
 func genCase(t *rapid.T) Case {
 	c := Case{ShardNum: rapid.SampledFrom([]int{1, 2, 16}).Draw(t, "shards"), Yield: rapid.SampledFrom([]int{0, 0, 1, 2, 5}).Draw(t, "yield")}
 	nc := rapid.IntRange(2, 8).Draw(t, "clients")
@@ -247,6 +271,15 @@ func genCase(t *rapid.T) Case {
 	hot := !readers && rapid.IntRange(0, 5).Draw(t, "hot") == 0
 	if hot {
 		nc, per = 6, 30
+	}
+	walk := !readers && !hot && rapid.IntRange(0, 9).Draw(t, "walk") == 0
+	if walk {
+		l := []string{"RPUSH", "l0"}
+		for i := 0; i < 800; i++ {
+			l = append(l, fmt.Sprintf("e%04d", i))
+		}
+		c.Pre = []kit.Cmd{kit.MkCmd(l...)}
+		nc, per = rapid.IntRange(4, 6).Draw(t, "wclients"), 16
 	}
 	if readers {
 		l, z, h, st := []string{"RPUSH", "l0"}, []string{"ZADD", "z0"}, []string{"HSET", "h0"}, []string{"SADD", "t0"}
@@ -263,6 +296,8 @@ func genCase(t *rapid.T) Case {
 		for j := 0; j < per; j++ {
 			if readers {
 				cl.Ops = append(cl.Ops, genReaderOp(t, i, j))
+			} else if walk {
+				cl.Ops = append(cl.Ops, genWalkOp(t, i, j))
 			} else if hot {
 				cl.Ops = append(cl.Ops, genHotOp(t, i, j))
 			} else {
@@ -406,7 +441,9 @@ func execInproc(c Case) kit.Outcome {
 		return r.Val, ""
 	}
 	o := kit.Outcome{Labels: []string{fmt.Sprintf("shardnum:%d", c.ShardNum), fmt.Sprintf("yield:%d", c.Yield)}}
-	if len(c.Pre) > 0 {
+	if len(c.Pre) == 1 {
+		o.Labels = append(o.Labels, "profile:long-list-overwritten-in-place-while-walked")
+	} else if len(c.Pre) > 0 {
 		o.Labels = append(o.Labels, "profile:many-readers-of-large-values")
 	}
 	if len(c.Clients) > 0 && len(c.Clients[0].Ops) > 0 && len(c.Pre) == 0 {
